@@ -518,19 +518,27 @@ pub fn runs(
 // per-property check parameters used by the driver
 
 pub fn n_cells(prop: &str, tier: Tier) -> u64 {
+    // sized so that a quick check takes 10-40 s and a thorough one 5-15 min on 16 cores
     match (prop, tier) {
-        ("C17", Tier::Quick) => 160,
-        ("C17", Tier::Thorough) => 2400,
+        // the first 192 cells of C01 / C10 run the repository corpus (x4 in the thorough tier)
+        ("C01", Tier::Quick) => 192 + 480,
+        ("C01", Tier::Thorough) => 192 * 4 + 9000,
+        ("C10", Tier::Quick) => 192 + 480,
+        ("C10", Tier::Thorough) => 192 * 4 + 9000,
+        ("C06", Tier::Quick) => 200,
+        ("C06", Tier::Thorough) => 3000,
+        ("C07", Tier::Quick) => 240,
+        ("C07", Tier::Thorough) => 3600,
+        ("C08", Tier::Quick) => 500,
+        ("C08", Tier::Thorough) => 9000,
+        ("C09", Tier::Quick) => 500,
+        ("C09", Tier::Thorough) => 9000,
+        ("C11", Tier::Quick) => 500,
+        ("C11", Tier::Thorough) => 9000,
+        ("C17", Tier::Quick) => 320,
+        ("C17", Tier::Thorough) => 6000,
         ("C26", Tier::Quick) => 400,
         ("C26", Tier::Thorough) => 6000,
-        ("C01", Tier::Quick) => 192 + 320,
-        ("C01", Tier::Thorough) => 192 * 4 + 4000,
-        ("C10", Tier::Quick) => 192 + 300,
-        ("C10", Tier::Thorough) => 192 * 4 + 3000,
-        ("C07", Tier::Quick) => 240,
-        ("C07", Tier::Thorough) => 2400,
-        ("C06", Tier::Quick) => 120,
-        ("C06", Tier::Thorough) => 1200,
         (_, Tier::Quick) => 200,
         (_, Tier::Thorough) => 3000,
     }
